@@ -235,15 +235,22 @@ def run_cg(ctx, model, case):
         return
     # decision margins of the stopping test along the model's trajectory
     tolsq = mo["tolsq"]
-    bn2 = float(np.linalg.norm(_arr(case["b"], case["cplx"]))) ** 2
+    bv = _arr(case["b"], case["cplx"])
+    x0v = None if case["x0"] is None else _arr(case["x0"], case["cplx"])
+    Av = _arr(case["A"], case["cplx"], (n, n))
+    scale = 1.0 + float(np.linalg.norm(bv)) ** 2 + (0.0 if x0v is None else float(np.linalg.norm(Av @ x0v)) ** 2)
+    structural_zero = not np.any(bv) and (x0v is None or not np.any(x0v))  # r = 0 - A 0: exactly zero on both sides
     for s in mo["trace"]:
         num = float(np.real(s["num"]))
         marg = abs(num - tolsq) / max(abs(tolsq), 1e-300)
-        # relative near-tie, or a rounding-level residual compared with a rounding-level threshold (the decision then
-        # depends on the summation order); exact ties (num == tolsq, e.g. both 0) are kept
-        if s["ii"] < case["maxiter"] and num != tolsq and (marg < 1e-6 or abs(num - tolsq) <= 1e-22 * (1.0 + bn2)):
-            ctx.count("cg:discard-near-tie")
-            return
+        # near-ties of the stopping test are discarded: relative margin < 1e-6, or a residual at rounding level compared
+        # with a threshold at rounding level (the decision then depends on the summation order of A @ x on either side);
+        # exact ties are kept where they are exact on both sides (num == tolsq != 0 by dyadic data, or r = 0 - A 0)
+        if s["ii"] < case["maxiter"]:
+            rounding_level = abs(num - tolsq) <= 1e-22 * scale
+            if (num != tolsq and marg < 1e-6) or (rounding_level and not structural_zero):
+                ctx.count("cg:discard-near-tie")
+                return
     K = mo["num_iter"]
     ctx.count(f"cg:iters={min(K, 9)}")
     ctx.count("cg:exit=" + ("maxiter" if K == case["maxiter"] else "tolerance"))
@@ -642,7 +649,7 @@ def gen_conv(rng):
     h = lu.rnd(rng, (K, *ks), cplx, bool(rng.integers(0, 2)), scale=1.0)
     g = lu.rnd(rng, (K, *[min(2, s) for s in shape]), cplx, False, scale=1.0)
     c = float(rng.integers(1, 9)) / 2.0
-    dkind = str(rng.choice(["scaled-identity", "gram", "broadcast"]))
+    dkind = str(rng.choice(["scaled-identity", "gram", "broadcast", "kernel", "kernel"]))
     b = lu.rnd(rng, (K, *shape), cplx, False)
     if rng.integers(0, 12) == 0:
         b = np.zeros_like(b)
@@ -669,9 +676,12 @@ def _impl_conv(case):
     elif case["dkind"] == "gram":
         gh = np.fft.fftn(g, s=shape, axes=axes)
         dhat = case["c"] + np.abs(gh) ** 2 + 0j
-    else:  # one filter broadcast over the K channels
+    elif case["dkind"] == "broadcast":  # one filter broadcast over the K channels
         gh = np.fft.fftn(g[:1], s=shape, axes=axes)
         dhat = case["c"] + np.abs(gh) ** 2 + 0j
+    else:  # "kernel": c*delta + a small non-symmetric kernel, so that the frequency response of D is complex (and non-zero)
+        gk = g / (2.0 * max(1.0, float(np.sum(np.abs(g), axis=tuple(range(1, g.ndim))).max()))) * case["c"]
+        dhat = case["c"] + np.fft.fftn(gk, s=shape, axes=axes)
     D = linop.CircularConvolve(jnp.array(dhat), input_shape=ishape, ndims=nd, input_dtype=dt, h_is_dft=True)
     try:
         s = solver.ConvATADSolver(A, D)
